@@ -65,7 +65,7 @@ func main() {
 		fatal("config: %v", err)
 	}
 	if cfg.Unfold == 0 {
-		cfg.Unfold = 1
+		cfg.Unfold = 2
 	}
 	t0 := time.Now()
 	v := NewVerifier()
